@@ -91,3 +91,76 @@ Theorem C02_complete_calls :
       exists l, In l (fst (sexec2 lim special oracle loop fuel fr w ctr sg)) /\ sat rho (l2_path l).
 Proof. exact sexec2_complete. Qed.
 Print Assumptions C02_complete_calls.
+
+(* ------------------------------------------------------------------------------------------
+   The other branch points (Model/BranchPoints.v over Gen/GenBranch.v, regenerated from
+   SEVM.resolve_address_alias, handle_insufficient_fund_case, transfer_value and the OP_JUMP arm of
+   SEVM.run).  V is the type of valuations of the symbolic inputs, `path` the set of valuations
+   satisfying the current path, `chk c` the solver's answer for path /\ c (0 = unsat). *)
+From HV Require Import Gen.GenBranch Model.BranchPoints Proofs.BranchProofs.
+
+(* address aliases: every valuation of the path whose (symbolic) address is not the test contract
+   satisfies the condition of an explored alias -- an existing account or the empty-account
+   alternative -- whatever the solver answers, as long as `unsat` is truthful *)
+Theorem C02_alias_complete :
+  forall (V : Type) (chk : cnd V -> Z) (path : V -> Prop) (accts : list Z) (test : Z) (tgt : V -> Z) (v : V),
+    (forall c, chk c = 0 -> forall v', path v' -> c v' = false) ->
+    path v -> tgt v <> test ->
+    exists o c, In (o, c) (alias_alternatives V chk accts test tgt) /\ c v = true.
+Proof. exact alias_complete. Qed.
+Print Assumptions C02_alias_complete.
+
+(* ... and the state is abandoned (InfeasiblePath) only when nothing but the test contract is left *)
+Theorem C02_alias_dropped_only_if_infeasible :
+  forall (V : Type) (chk : cnd V -> Z) (path : V -> Prop) (accts : list Z) (test : Z) (tgt : V -> Z),
+    (forall c, chk c = 0 -> forall v', path v' -> c v' = false) ->
+    alias_alternatives V chk accts test tgt = [] -> forall v, path v -> tgt v = test.
+Proof. exact alias_dropped_only_if_infeasible. Qed.
+Print Assumptions C02_alias_dropped_only_if_infeasible.
+
+(* the full statement (without `tgt v <> test`) is false of the code: the test contract itself is
+   never considered as an alias, so an input that makes a symbolic address equal to it is covered
+   by no alternative (known finding C02-alias-excludes-test-contract) *)
+Theorem C02_alias_test_contract_refuted :
+  exists (accts : list Z) (test : Z) (tgt : bool -> Z) (chk : cnd bool -> Z) (v : bool),
+    (forall c, chk c = 0 -> forall v', c v' = false) /\
+    tgt v = test /\ In test accts /\
+    forall o c, In (o, c) (alias_alternatives bool chk accts test tgt) -> c v = false.
+Proof. exact alias_test_contract_dropped. Qed.
+Print Assumptions C02_alias_test_contract_refuted.
+
+(* insufficient funds: every valuation is covered by the failing or by the succeeding alternative *)
+Theorem C02_funds_complete :
+  forall (V : Type) (chk : cnd V -> Z) (path : V -> Prop) (bal val : V -> Z) (v : V),
+    (forall c, chk c = 0 -> forall v', path v' -> c v' = false) ->
+    path v ->
+    exists fails c, In (fails, c) (funds_alternatives V chk bal val) /\ c v = true.
+Proof. exact funds_complete. Qed.
+Print Assumptions C02_funds_complete.
+
+(* symbolic JUMP: every valuation that jumps to a valid destination is covered *)
+Theorem C02_symjump_complete_partial :
+  forall (V : Type) (chk : cnd V -> Z) (path : V -> Prop) (valid : list Z) (dst : V -> Z) l (v : V),
+    (forall c, chk c = 0 -> forall v', path v' -> c v' = false) ->
+    path v -> In (dst v) valid -> jump_alternatives V chk valid dst = Some l ->
+    exists t c, In (t, c) l /\ c v = true.
+Proof. exact jump_complete_valid. Qed.
+Print Assumptions C02_symjump_complete_partial.
+
+(* ... but a valuation that jumps to an INVALID destination is covered by no branch when some valid
+   destination is feasible: the halting outcome is not reported (known finding
+   C02-symbolic-jump-invalid-destination, --symbolic-jump only) *)
+Theorem C02_symjump_invalid_refuted :
+  exists (valid : list Z) (dst : bool -> Z) (chk : cnd bool -> Z) (v : bool) l,
+    (forall c, chk c = 0 -> forall v', c v' = false) /\
+    ~ In (dst v) valid /\ jump_alternatives bool chk valid dst = Some l /\
+    forall t c, In (t, c) l -> c v = false.
+Proof. exact jump_invalid_destination_dropped. Qed.
+Print Assumptions C02_symjump_invalid_refuted.
+
+(* non-vacuity: a two-account world, an oracle that answers `unknown` to everything, and a target
+   that hits the second account: the covering alternative exists and names that account *)
+Example C02_alias_nonvacuous :
+  In (Some 9, is_alias bool (fun b : bool => if b then 7 else 9) 9)
+     (alias_alternatives bool (fun _ => 2) [7; 9] 1 (fun b : bool => if b then 7 else 9)).
+Proof. vm_compute. right. left. reflexivity. Qed.
